@@ -438,7 +438,8 @@ func (ega *EnhancedGroupAggregator) AddPostAggregationExpression(outputField, or
 		}
 
 		// Check if input field is an expression (contains function calls)
-		isInputExpression := strings.Contains(field.InputField, "(") && strings.Contains(field.InputField, ")")
+		isInputExpression := (strings.Contains(field.InputField, "(") && strings.Contains(field.InputField, ")")) ||
+			(strings.TrimSpace(field.InputField) != "*" && strings.ContainsAny(field.InputField, "+-*/"))
 
 		// If input expression itself contains aggregation calls, skip creating an aggregator for this field
 		// Use dynamic function registry instead of hardcoded list
